@@ -253,9 +253,16 @@ func awsChunked(payload []byte, sizes []int, lie string) []byte {
 		default:
 			fmt.Fprintf(&b, "%x;chunk-signature=%s\r\n", n, chunkSig)
 		}
-		first = false
 		b.Write(rest[:n])
-		b.WriteString("\r\n")
+		switch {
+		case lie == "badcrlf" && first:
+			b.WriteString("XY") // two bytes that are not CRLF after the chunk's data
+		case lie == "lfonly" && first:
+			b.WriteString("\n\n")
+		default:
+			b.WriteString("\r\n")
+		}
+		first = false
 		rest = rest[n:]
 	}
 	if lie != "nofinal" {
